@@ -117,8 +117,10 @@ def r1(R1, cfg, F, hr):
         R1.check(ok, cfg, p, '_mutable=' + want, 'the mutability predicate must be "this cache has a reloader"; calls %s' % cs, cb.loc())
     hb = F.body('anycache::CacheExt::_has_reloader')
     if hb:
-        cs = [x.callee.name for x in hb.calls() if x.callee]
-        R1.check(cs == ['reloader', 'is_some'], cfg, hb.path, '_has_reloader=reloader().is_some()', 'calls %s' % cs, hb.loc())
+        cs = [x for x in hb.calls() if x.callee]
+        p_ = common.returns_is_variant(hb, 1)
+        ok = len(cs) == 1 and cs[0].callee.name == 'reloader' and p_ == ['call@bb%d' % cs[0].bb]
+        R1.check(ok, cfg, hb.path, '_has_reloader=reloader().is_some()', 'calls %s, true iff %s is Some' % ([x.callee.name for x in cs], p_), hb.loc())
 
 
 def r2(R2, cfg, F):
